@@ -200,9 +200,7 @@ def StatusRec.WF (r : StatusRec) : Prop :=
 
 /-- extra side condition for the unanchored `ctxt_switches` pattern -/
 def StatusRec.WFCtx (r : StatusRec) : Prop :=
-  r.comm.length ≤ 15 ∧
-  (∀ kv ∈ r.pre ++ [idLine keyUid r.uid, idLine keyGid r.gid] ++ r.mid1
-      ++ [(keyThreads, renderDec r.threads)] ++ r.mid2, NoCtxHit (kv.1 ++ [58, 9] ++ kv.2))
+  r.comm.length ≤ 15 ∧ (∀ kv ∈ r.pre ++ r.mid1 ++ r.mid2, NoCtxHit (kv.1 ++ [58, 9] ++ kv.2))
 
 def uids (r : StatusRec) : Nat × Nat × Nat := (r.uid.1, r.uid.2.1, r.uid.2.2.1)
 def gids (r : StatusRec) : Nat × Nat × Nat := (r.gid.1, r.gid.2.1, r.gid.2.2.1)
